@@ -205,7 +205,20 @@ def _nodes_of(r):
 def op_pdump(impl, b, a):
     roots = roots_parse(a[0])
     fh, path = _new_file(impl, '.p')
-    b.dump(path, roots)
+    if roots is not None and sum(map(ord, a[0])) % 3 == 0:
+        # the same dump through `dd.autoref.BDD.dump`, roots given as `Function`s (list or dict):
+        # the wrapper maps them to node integers; the file must be what the core writes
+        w = _wrapper(b)
+        if isinstance(roots, dict):
+            fr = {k: _auto.Function(u, w) for k, u in roots.items()}
+        else:
+            fr = [_auto.Function(u, w) for u in roots]
+        try:
+            w.dump(path, fr)
+        finally:
+            del fr
+    else:
+        b.dump(path, roots)
     d = read_pickle(path)
     _objs(impl)['last'] = (fh, d)
     return '|'.join(pickle_fields(d, True))
